@@ -247,6 +247,13 @@ def block_strings(utf8=False):
         for i, p in enumerate(lens):
             for q in (lens if c < 0x80 and not chr(c).isalnum() else lens[i % 3::3]):
                 out.append(unit * p + x + unit * q)
+    # a quoted word / a dot / a closing quote right after an atom (or a quoted run) of each of those lengths
+    for p in lens + (127, 128, 129, 191, 192, 193, 255, 256, 257):
+        for pre in (b"", b"p."):
+            for tail in (b'"x"', b'."x"', b'"x".a', b'.a', b'."x".b'):
+                out.append(pre + unit * p + tail)
+            out.append(pre + b'"' + unit * p + b'"x')
+            out.append(pre + b'"' + unit * p + b'".x')
     if utf8:
         e = "\u00e9".encode()
         for p in lens:
